@@ -18,7 +18,7 @@ def link_fault_items(rng, timeout_ns, prev_keys, version, agent_cfg, lat):
         kind = rng.choice(["rid", "rid", "community-or-user", "msgid-or-version", "stale", "truncate", "dup-late", "engine", "reflect", "request-pdu", "stray-report"])
         it = {"k": "genuine", "delay_ns": t}
         if kind == "rid":
-            it["rewrite"] = {"request-id": rng.choice(["prev", "zero", "plus1", "xor1", "neg", "bit31", "bit32", "hi", rng.randrange(2**31)])}
+            it["rewrite"] = {"request-id": rng.choice(["prev", "zero", "plus1", "xor1", "neg", "bit31", "bit32", "hi", "m256", "m65536", "m16777216", "p256", "p16777216", rng.randrange(2**31)])}
         elif kind == "community-or-user":
             if version == "v3":
                 it["rewrite"] = {"user": rng.choice([b"other".hex(), b"".hex(), b"U1".hex()])}
